@@ -6,7 +6,7 @@ from common import Report, log
 
 MANIFEST = dict(
     technique='Coq proof that a function-by-function Gallina model of the expression parser maps every rendering of every reference expression (all parenthesisation choices) to the prescribed tree + model-vs-code correspondence on rendered, corrupted and unsupported token lists + prescribed-tree oracle (generator knows the tree) on the whole statement surface',
-    text='Spec/RefGrammar.v defines the reference expressions (OR < AND < NOT < comparison/IS NULL/IN/BETWEEN/LIKE < || < + - < * / % < :: < primary), their token renderings for every choice of redundant parentheses, and Model/Expr.v the prescribed tree ast_of. Model/ExprParse.v mirrors expressions.go function by function (cursor, depth counter, quirks, defect switches). Theorem parse_render_expr: for every reference expression, every parenthesisation, every admissible follow token list and every nesting within the depth limit the model parser returns exactly (ast_of e, rest) - precedence, left associativity, parenthesis override, everything written appears, nothing else appears, never rejected, in one statement, by induction with one lemma per ladder level. The model is tied to the code on every run: the real parseExpression (hook) and the model are run on the same token lists (rendered, corrupted, unsupported) and must agree on accept/reject, consumed tokens and whole tree. Independently, the real parser output for generated statements of the whole documented surface (queries, DML, MERGE, DDL) is compared field by field with the tree the generator prescribes.',
+    text='Spec/RefGrammar.v defines the reference expressions (OR < AND < NOT < comparison/IS NULL/IN/BETWEEN/LIKE < || < + - < * / % < :: < primary), their token renderings for every choice of redundant parentheses, and Model/Expr.v the prescribed tree ast_of. Model/ExprParse.v mirrors expressions.go function by function (cursor, depth counter, quirks, defect switches). Theorem C03_parse_render_expr_partial: for every reference expression of the proved sub-surface (identifiers, literals, placeholders, all binary operators of the ladder, NOT, IS [NOT] NULL, [NOT] IN (list), [NOT] BETWEEN, [NOT] LIKE/ILIKE, :: and CAST with plain type names, any parentheses), every parenthesisation, every admissible follow token list, every depth limit and every nesting within it the model parser returns exactly (ast_of e, rest) - precedence, left associativity, parenthesis override, everything written appears, nothing else appears, never rejected, in one statement, by induction with one lemma per ladder level; function calls, CASE, tuples and type names with arguments are modelled but not yet covered by the induction (partial). Refuted-witness theorems for the two defect switches of the pinned tree (both repaired in /repo). The model is tied to the code on every run: the real parseExpression (hook) and the model are run on the same token lists (rendered, corrupted, unsupported) and must agree on accept/reject, consumed tokens and whole tree. Independently, the real parser output for generated statements of the whole documented surface (queries, DML, MERGE, DDL) is compared field by field with the tree the generator prescribes.',
     note=common.BASE_NOTE + "Lexing is C04's theorem: C03 checks per run that the real tokenizer+converter produce the token list the renderer states. The statement level (SELECT/DML/DDL clauses) is covered by the prescribed-tree oracle only (no statement theorem yet); ASCII-only case folding in the model.",
     design='6/C03')
 
@@ -18,6 +18,15 @@ COQ_HEAD = ("From Coq Require Import List String NArith ZArith.\n"
 
 # ------------------------------------------------------------------------------------------------
 # running the implementation
+
+OPNAMES = {"+": "plus", "-": "minus", "*": "mul", "/": "div", "%": "mod", "||": "concat", "=": "eq", "<>": "neq", "!=": "bangeq",
+           "<": "lt", ">": "gt", "<=": "le", ">=": "ge", "::": "castop"}
+
+
+def safe_id(cid):
+    parts = cid.replace(":", "/").split("/")
+    return "_".join(OPNAMES.get(p, p.replace(" ", "-")) for p in parts)
+
 
 def vh_lines(sub, objs, timeout=1200):
     inp = "".join(json.dumps(o) + "\n" for o in objs)
@@ -359,11 +368,11 @@ def run(tier):
     rp.obligation("depth counter restored after parseExpression", not depth_bad, "%d" % len(depth_bad))
     for c in viol[:5]:
         rp.violation({"kind": "expr", "sql": c["sql"], "model_expr": c["e"], "prescribed": c["want"], "observed": c["out"].get("tree"),
-                      "accepted": c["out"]["accepted"], "why": c["why"]}, "expr_" + c["id"])
+                      "accepted": c["out"]["accepted"], "why": c["why"]}, "expr_" + safe_id(c["id"]))
     rp.obligation("oracle(b): real parser = prescribed tree on generated statements of the documented surface", not sviol, "%d failures" % len(sviol))
     for c in sviol[:8]:
         rp.violation({"kind": "stmt", "sql": c["sql"], "prescribed": c["want"], "observed": (c["out"].get("trees") or [None])[0],
-                      "accepted": c["out"]["accepted"], "code": c["out"].get("code"), "why": c["why"]}, "stmt_" + c["id"])
+                      "accepted": c["out"]["accepted"], "code": c["out"].get("code"), "why": c["why"]}, safe_id(c["id"]))
     for it, r in corr_bad[:5]:
         rp.violation({"kind": "correspondence", "broken": "ExprParse.v vs parseExpression", "sql": it[1], "depth": it[2],
                       "impl": {k: it[3].get(k) for k in ("accepted", "code", "pos", "tree", "panic")}}, "corr_" + it[0], no_input=True)
